@@ -80,6 +80,25 @@ def rule_bp(ctx, M, cname, futname, rule):
     adds = [s for s in bi.sites if s.callee.name == "fetch_add" and s.arg(0) == cfield("count")]
     pushes = [s for s in bi.sites if s.callee.name == "push" and s.arg(0) == cfield("group")]
     probs = []
+    helper_wait = None
+    if not exit_e and not stay_e:
+        # the wait moved into a private `async fn wait_for_capacity(count, limit, group)`: it is the back-pressure loop if,
+        # read in send's terms, it returns only through the `count.load() < limit` exit and awaits group.next() before
+        # every re-test; its completion (the Ready edge of the await in send) then stands for that exit
+        for a in costream.awaits(bi):
+            hv = costream.helper_view(M, bi, a)
+            if hv is None:
+                continue
+            h_exit = flow.edges_where(hv, is_count_load_term(hv), "Lt", cfield("limit"))
+            h_stay = flow.edges_where(hv, is_count_load_term(hv), "Ge", cfield("limit"))
+            h_aw = costream.group_next_awaits(hv)
+            if h_exit and h_stay and h_aw and all(hv.guarded_by(r_, h_exit) for r_ in hv.return_blocks):
+                tests = sorted({x for x, _ in h_stay})
+                r_ = hv.reach_from_edges(h_stay, avoid_blocks=[x.block for x in h_aw], stop_blocks=tests)
+                if not any(x in r_ for x in tests) and not any(x in r_ for x in hv.return_blocks) and not [s for s in hv.sites if s.callee.name in ("fetch_add", "push")]:
+                    helper_wait = a
+                    exit_e = bi.outcome_edges(a.site, "Ready")
+                    stay_e = h_stay
     if not exit_e or not stay_e:
         probs.append("no back-pressure test comparing count.load() with limit")
     if len(adds) != 1 or adds[0].arg(1) != ("const", 1):
@@ -100,7 +119,9 @@ def rule_bp(ctx, M, cname, futname, rule):
         aw = costream.group_next_awaits(bi)
         tests = sorted({a for a, b_ in stay_e})
         okw = bool(aw)
-        if okw:
+        if helper_wait is not None:
+            okw = True          # established on the helper's body above
+        elif okw:
             r = bi.reach_from_edges(stay_e, avoid_blocks=[a.block for a in aw], stop_blocks=tests)
             okw = not any(x in r for x in tests) and not any(x in r for x in bi.return_blocks)
         if not okw:
@@ -281,7 +302,7 @@ def rule_flush(ctx, M, cname, rule):
     for fn in ("flush", "progress"):
         b = ent[fn]
         ctx.require(b is not None, "%s::%s coroutine" % (cname, fn))
-        bi = M.info(b)
+        bi = costream.effective_body(M, M.info(b))
         costream.drain_loops_exit_only_on_none(ctx, bi, rule, b.def_, "%s returns only after group.next() yielded None (group drained)" % fn)
 
 
